@@ -74,7 +74,7 @@ Theorem C19_rejects_escapes :
     (forall lk0 lk1 dir n cwd outs, job_paths lk0 lk1 dir id n cwd outs = JBadId)
     /\ (forall root, cache_file root id = None)
     /\ (forall s j, assign s j id = (s, AErr))
-    /\ (forall b c, prepare b id c = (b, None)).
+    /\ (forall b c n, prepare b id c n = (b, None)).
 Proof. exact invalid_refused. Qed.
 Print Assumptions C19_rejects_escapes.
 
@@ -83,10 +83,11 @@ Theorem C19_valid_ids_are_plain_names :
 Proof. exact valid_id_plain. Qed.
 Print Assumptions C19_valid_ids_are_plain_names.
 
-(* the server state only ever holds valid ids, for ALL request sequences *)
+(* the server state only ever holds valid ids, for ALL cache sizes and ALL request sequences (jobs run to the end,
+   jobs started and left running, releases) *)
 Theorem C19_server_ids_valid :
-  forall rs, Forall (fun x => srv_ok (snd x)) (do_jobs server0 1 rs).
-Proof. intro rs. apply do_jobs_ok. exact server0_ok. Qed.
+  forall c ops, Forall (fun x => srv_ok (snd x)) (do_ops (server0 c) 1 ops).
+Proof. intros c ops. apply do_ops_ok. apply server0_ok. Qed.
 Print Assumptions C19_server_ids_valid.
 
 (* For ALL sequences of prepare / finish / evict on the builder: the live build directories are pairwise
@@ -96,17 +97,37 @@ Proof. exact brun_NoDup. Qed.
 Print Assumptions C19_jobs_disjoint.
 
 (* ... a successful prepare_overlay_dirs hands out a directory nobody else is using, named <id>-<k>, with k one
-   more than the toolchain's previous count (1 for a toolchain that has to be unpacked) ... *)
+   more than the toolchain's previous count and 1 for a toolchain that has to be unpacked (again) - so the same
+   name can come up while an older job still owns it ... *)
 Theorem C19_prepare_fresh :
-  forall b id ic b' nm, prepare b id ic = (b', Some nm) ->
+  forall b id ic n b' nm, prepare b id ic n = (b', Some nm) ->
     valid_id id = true
     /\ ~ In nm (live b)
     /\ live b' = nm :: live b
-    /\ exists k, nm = build_name id k /\ blookup id (dirmap b') = Some k
+    /\ exists k, nm = build_name id k
                  /\ (forall c, blookup id (dirmap b) = Some c -> In id (unpacked b) -> k = c + 1)
                  /\ (blookup id (dirmap b) = None \/ ~ In id (unpacked b) -> k = 1).
 Proof. exact prepare_spec. Qed.
 Print Assumptions C19_prepare_fresh.
+
+(* ... in which case THE GUARD (create_dir of an existing build directory fails) makes prepare_overlay_dirs refuse:
+   disjointness rests on it, not on the counter ... *)
+Theorem C19_prepare_guard :
+  forall b id ic n b' o, prepare b id ic n = (b', o) ->
+    forall k, In (build_name id k) (live b) ->
+      (forall c, blookup id (dirmap b) = Some c -> In id (unpacked b) -> k = c + 1) ->
+      (blookup id (dirmap b) = None \/ ~ In id (unpacked b) -> k = 1) ->
+      o = None.
+Proof. exact prepare_guard. Qed.
+Print Assumptions C19_prepare_guard.
+
+(* ... at the level of the server: a job whose compile gets started has a root no running job has *)
+Theorem C19_started_job_root_fresh :
+  forall s j r s' nm t1 t2, run_begin s j r = (s', BRunning nm t1 t2) ->
+    (exists id k, valid_id id = true /\ nm = build_name id k)
+    /\ ~ In nm (live (bld s)) /\ live (bld s') = nm :: live (bld s).
+Proof. exact run_begin_fresh. Qed.
+Print Assumptions C19_started_job_root_fresh.
 
 (* ... names determine (id, counter) ... *)
 Theorem C19_build_names_injective :
@@ -136,22 +157,16 @@ Proof. exact toolchain_untouched. Qed.
 Print Assumptions C19_toolchain_readonly_by_construction.
 
 (* In the server model (overlay assumption: each job starts from the unpacked toolchain plus its own inputs),
-   what a job finds in its root and what is returned as its outputs is a function of its own request: no trace
-   of any earlier job, whatever the history s / s' of the server. *)
+   what a job finds in its root and what is returned as its outputs is a function of its own request and its
+   toolchain: no trace of any earlier or concurrent job, whatever the history s / s' of the server. *)
 Theorem C19_job_view_independent_of_history :
-  forall s j s' j' r s1 rr tg sn outs s1' rr' tg' sn' outs',
+  forall s j s' j' r id id' s1 rr tg sn outs s1' rr' tg' sn' outs',
+    jlookup j (jobs s) = Some id -> jlookup j' (jobs s') = Some id' -> kind_of s id = kind_of s' id' ->
     run s j r = (s1, (rr, Some tg, sn, outs)) ->
     run s' j' r = (s1', (rr', Some tg', sn', outs')) ->
     rr = rr' /\ sn = sn' /\ outs = outs'.
 Proof. exact run_view_independent. Qed.
 Print Assumptions C19_job_view_independent_of_history.
-
-(* a job root handed to a job is builds/<valid id>-<k>/target *)
-Theorem C19_job_root_shape :
-  forall s j r s' rr tg sn outs, srv_ok s -> run s j r = (s', (rr, Some tg, sn, outs)) ->
-    exists id k, valid_id id = true /\ tg = push (push s_builds (build_name id k)) s_target.
-Proof. exact run_target. Qed.
-Print Assumptions C19_job_root_shape.
 
 (* std::path: Path::join on bytes is the component-level join *)
 Theorem C19_components_join : forall p q, components (push p q) = join_c (components p) (components q).
@@ -188,5 +203,16 @@ Example ex_bad_ids :
 Proof. vm_compute. reflexivity. Qed.
 
 Example ex_prepare :
-  snd (prepare builder0 (bs "ab") true) = Some (bs "ab-1").
+  snd (prepare builder0 (bs "ab") true 1) = Some (bs "ab-1").
+Proof. vm_compute. reflexivity. Qed.
+
+(* the interleaving behind the guard: job 1 of toolchain ab is running; the builder forgets ab (its archive was
+   evicted and another toolchain's job pruned the map); ab comes back and a new job of it is refused, the running
+   job keeps its directory *)
+Example ex_counter_restarts :
+  let b1 := fst (prepare builder0 (bs "ab") true 1) in
+  let b2 := fst (prepare b1 (bs "cd") true 1) in
+  (live b1, map fst (dirmap b2), prepare b2 (bs "ab") true 1)
+  = ([bs "ab-1"], [bs "cd"],
+     ({| dirmap := [(bs "ab", 1)]; unpacked := [bs "ab"]; live := [bs "cd-1"; bs "ab-1"] |}, None)).
 Proof. vm_compute. reflexivity. Qed.
